@@ -119,8 +119,17 @@ struct Files {
     gram: std::path::PathBuf,
 }
 
+static CASE_COUNTER: std::sync::atomic::AtomicUsize = std::sync::atomic::AtomicUsize::new(0);
+
 fn write_files(c: &Case) -> Files {
-    let dir = work_dir();
+    // a directory of its own for every case: files are never rewritten under a loader thread of
+    // an earlier case that is still winding down
+    let n = CASE_COUNTER.fetch_add(1, std::sync::atomic::Ordering::Relaxed);
+    let dir = work_dir().join(format!("c08-{n}"));
+    let _ = std::fs::create_dir_all(&dir);
+    if n >= 4 {
+        let _ = std::fs::remove_dir_all(work_dir().join(format!("c08-{}", n - 4)));
+    }
     let mut paths = vec![];
     for (i, lines) in c.files.iter().enumerate() {
         let p = dir.join(format!("c08-{i}.jsonl"));
@@ -168,8 +177,8 @@ struct Vary {
     chaos: Option<u64>,
 }
 
-fn run(c: &Case, f: &Files, v: &Vary) -> Result<(Option<usize>, Vec<Vec<Fp>>), String> {
-    let args = LoaderArgs {
+fn loader_args(c: &Case, f: &Files, v: &Vary, epoch: usize) -> LoaderArgs {
+    LoaderArgs {
         files: f.paths.clone(),
         pipeline: pipeline_cfg(&c.pipeline, &f.gram),
         strategy: match c.strategy {
@@ -189,10 +198,14 @@ fn run(c: &Case, f: &Files, v: &Vary) -> Result<(Option<usize>, Vec<Vec<Fp>>), S
         skip: v.skip,
         limit: v.limit,
         distributed: v.world,
-        epoch: c.epoch,
+        epoch,
         fast_forward: v.ff,
         max_batches: None,
-    };
+    }
+}
+
+fn open(c: &Case, f: &Files, v: &Vary, epoch: usize) -> Result<LoaderHandle, String> {
+    let args = loader_args(c, f, v, epoch);
     if let Some(ch) = v.chaos {
         text_utils::verif::install(Some(Chaos::new(ch) as Arc<dyn Controller>));
     }
@@ -202,10 +215,12 @@ fn run(c: &Case, f: &Files, v: &Vary) -> Result<(Option<usize>, Vec<Vec<Fp>>), S
     // Pipe::new replaced the panic hook by one that exits the process; take it back before any
     // item is pulled, so that a panic in the code under test is recorded, not fatal
     install_panic_hook();
-    let mut handle = opened.map_err(|e| format!("loader construction failed: {e}"))?;
-    let min_items = handle.min_items;
+    opened.map_err(|e| format!("loader construction failed: {e}"))
+}
+
+fn drain(handle: &mut LoaderHandle, max_batches: usize) -> Result<Vec<Vec<Fp>>, String> {
     let mut views = vec![];
-    loop {
+    while views.len() < max_batches {
         beat();
         match handle.next_batch() {
             Ok(Some(b)) => views.push(b),
@@ -216,13 +231,50 @@ fn run(c: &Case, f: &Files, v: &Vary) -> Result<(Option<usize>, Vec<Vec<Fp>>), S
             return Err("loader yields batches without end".into());
         }
     }
-    drop(handle);
     beat();
-    let batches = views
+    Ok(views
         .iter()
         .map(|b| b.items.iter().map(|i| (i.input.clone(), i.target.clone(), format!("{:?}", i.task))).collect())
-        .collect();
+        .collect())
+}
+
+fn run(c: &Case, f: &Files, v: &Vary) -> Result<(Option<usize>, Vec<Vec<Fp>>), String> {
+    let base = thread_count();
+    let mut handle = open(c, f, v, c.epoch)?;
+    let min_items = handle.min_items;
+    let batches = drain(&mut handle, usize::MAX)?;
+    drop(handle);
+    settle(base)?;
     Ok((min_items, batches))
+}
+
+/// every thread the loader started must be gone before the next run starts (C09 is about that;
+/// here it keeps runs from disturbing each other and attributes a late panic to the right case)
+fn settle(base: usize) -> Result<(), String> {
+    beat();
+    // not a verdict here (that threads exit after a drop is C09's subject)
+    let _ = wait_threads(base, std::time::Duration::from_secs(5));
+    beat();
+    Ok(())
+}
+
+/// the Python usage pattern: one loader object, `set_epoch` + `__iter__` at the start of every
+/// epoch; the previous epoch was abandoned after `first` batches
+fn run_reused(c: &Case, f: &Files, v: &Vary, other_epoch: usize, first: usize) -> Result<Vec<Vec<Fp>>, String> {
+    let base = thread_count();
+    let mut handle = open(c, f, v, other_epoch)?;
+    let _ = drain(&mut handle, first)?;
+    if let Some(ch) = v.chaos {
+        text_utils::verif::install(Some(Chaos::new(ch ^ 0x55) as Arc<dyn Controller>));
+    }
+    let r = handle.restart(c.epoch, v.ff);
+    text_utils::verif::install(None);
+    install_panic_hook();
+    r.map_err(|e| format!("restart failed: {e}"))?;
+    let batches = drain(&mut handle, usize::MAX)?;
+    drop(handle);
+    settle(base)?;
+    Ok(batches)
 }
 
 fn flat(b: &[Vec<Fp>]) -> Vec<Fp> {
@@ -246,13 +298,13 @@ const LETTERS: &[&str] = &["a", "b", "c", "d"];
 impl Prop for C08 {
     type Case = Case;
     const ID: &'static str = "C08";
-    const RULE: &'static str = "1-3 jsonl files of 0-12 clean lines (occasionally up to 5 files of up to 60 lines, world size up to 9, 12 threads, buffer 32) over a 4-letter alphabet (each line carries a unique file:line marker; ~5% malformed lines) x strategy x seed x epoch x skip x limit x world size 1..=4 x fast-forward k x num_threads 0..=4 x buffer 0..=4 x sort/shuffle/prefetch/batch limit/limit type x pipeline grammar (preprocessing in {none, clean, whitespace corruption, switch, spelling corruption with a generated 3-gram table with tied frequencies, chain}, task whitespace correction or generation with a byte tokenizer, postprocessing in {none, clip length, token masking}); every case runs the real TrainLoader ~10 times through the verif driver (reference run: threads 0, world 1, k 0, no sort/shuffle) under a chaos controller and checks: identical batches for other (threads, buffer) and for a fresh loader; same item multiset for any batching; per-rank streams disjoint with union = reference (positional when unshuffled); fast_forward(k) = reference after its first k; skip=m / limit=m split; every marker has one fingerprint in all runs. Non-trivial: randomised preprocessing, >= 4 items and at least two of {world > 1, k > 0, threads > 0, shuffle}. Distinct = distinct serialised case.";
+    const RULE: &'static str = "1-3 jsonl files of 0-12 clean lines (occasionally up to 5 files of up to 60 lines, world size up to 9, 12 threads, buffer 32) over a 4-letter alphabet (each line carries a unique file:line marker; ~5% malformed lines) x strategy x seed x epoch x skip x limit x world size 1..=4 x fast-forward k x num_threads 0..=4 x buffer 0..=4 x sort/shuffle/prefetch/batch limit/limit type x pipeline grammar (preprocessing in {none, clean, whitespace corruption, switch, spelling corruption with a generated 3-gram table with tied frequencies, chain}, task whitespace correction or generation with a byte tokenizer, postprocessing in {none, clip length, token masking}); every case runs the real TrainLoader ~10 times through the verif driver (reference run: threads 0, world 1, k 0, no sort/shuffle) under a chaos controller and checks: identical batches for other (threads, buffer), for a fresh loader and for the same loader object re-iterated (set_epoch + __iter__) after another, partly consumed epoch; same item multiset for any batching; per-rank streams disjoint with union = reference (positional when unshuffled); fast_forward(k) = reference after its first k; skip=m / limit=m split; every marker has one fingerprint in all runs. Non-trivial: randomised preprocessing, >= 4 items and at least two of {world > 1, k > 0, threads > 0, shuffle}. Distinct = distinct serialised case.";
     const HANG_SECS: u64 = 60;
-    const ESSENTIAL: &'static [&'static str] = &["ws_corruption", "spelling_corruption", "switch", "world>1", "ff>0", "threads>0", "shuffle", "sort", "malformed_lines", "weighted", "interleaved", "skip_limit", "token_masking"];
+    const ESSENTIAL: &'static [&'static str] = &["ws_corruption", "spelling_corruption", "switch", "world>1", "ff>0", "threads>0", "shuffle", "sort", "malformed_lines", "weighted", "interleaved", "skip_limit", "token_masking", "reused_loader"];
 
     fn budget(tier: Tier) -> Budget {
         match tier {
-            Tier::Quick => Budget { cases: 150, shards: 16 },
+            Tier::Quick => Budget { cases: 100, shards: 16 },
             Tier::Thorough => Budget { cases: 4500, shards: 16 },
         }
     }
@@ -397,6 +449,21 @@ impl Prop for C08 {
         let (_, b1) = go!(Vary { threads: c.threads, buffer: c.buffer, chaos: Some(c.chaos), ..cfg.clone() });
         ensure!(out, b0 == b1, "batches differ between (threads 0, buffer 1) and (threads {}, buffer {}): {:?} vs {:?}", c.threads, c.buffer,
             b0.iter().map(|b| b.iter().map(marker).collect::<Vec<_>>()).collect::<Vec<_>>(), b1.iter().map(|b| b.iter().map(marker).collect::<Vec<_>>()).collect::<Vec<_>>());
+        // 8. the same loader object, re-iterated for this epoch after another epoch was (partly)
+        // consumed, yields what a fresh loader yields
+        {
+            let v = Vary { threads: c.threads, buffer: c.buffer, chaos: Some(c.chaos.wrapping_add(7)), ..cfg.clone() };
+            let other = c.epoch + 1 + (c.split_at % 2);
+            match run_reused(c, &f, &v, other, c.split_at % 4) {
+                Ok(b) => ensure!(out, b == b0, "a loader that was iterated for epoch {other} (abandoned after {} batches) and then restarted for epoch {} differs from a fresh loader: {:?} vs {:?}", c.split_at % 4, c.epoch,
+                    b.iter().map(|x| x.iter().map(marker).collect::<Vec<_>>()).collect::<Vec<_>>(), b0.iter().map(|x| x.iter().map(marker).collect::<Vec<_>>()).collect::<Vec<_>>()),
+                Err(e) => {
+                    out.fail(e);
+                    return out;
+                }
+            }
+            out.label("reused_loader");
+        }
         // 3. batching does not change the item multiset
         ensure!(out, multiset(&flat(&b0)) == multiset(&s), "sort={} shuffle={} prefetch={} changes the set of items: {} vs {} items", c.sort, c.shuffle, c.prefetch, flat(&b0).len(), s.len());
         if !check_fps("batched run", &flat(&b0), &mut out) {
